@@ -68,6 +68,15 @@ func desc(x any) string {
 		return fmt.Sprintf("serr{%s}", strings.Join(v.tags, ","))
 	case []int:
 		return fmt.Sprintf("[]int%v", v)
+	case *sk:
+		if v == nil {
+			return "*sk:nil"
+		}
+		return fmt.Sprintf("*sk#%d", v.id)
+	case sv:
+		return fmt.Sprintf("sv{%d}", v.id)
+	case snc:
+		return fmt.Sprintf("snc%v", v.ids)
 	}
 	return fmt.Sprintf("%T:%v", x, x)
 }
@@ -104,14 +113,15 @@ type mop struct {
 	A, B int // indices into the value pool
 }
 
-func describeOp[V any](op mop, pool []V) string {
+func describeOp[K comparable, V any](op mop, keys []K, pool []V) string {
+	key := desc(any(keys[op.Key%len(keys)]))
 	switch op.Kind {
 	case opLoad, opLoadAndDelete, opDelete:
-		return fmt.Sprintf("%s(%d)", opNames[op.Kind], op.Key)
+		return fmt.Sprintf("%s(%s)", opNames[op.Kind], key)
 	case opStore, opLoadOrStore, opSwap, opCAD:
-		return fmt.Sprintf("%s(%d, %s)", opNames[op.Kind], op.Key, desc(any(pool[op.A])))
+		return fmt.Sprintf("%s(%s, %s)", opNames[op.Kind], key, desc(any(pool[op.A])))
 	case opCAS:
-		return fmt.Sprintf("%s(%d, %s, %s)", opNames[op.Kind], op.Key, desc(any(pool[op.A])), desc(any(pool[op.B])))
+		return fmt.Sprintf("%s(%s, %s, %s)", opNames[op.Kind], key, desc(any(pool[op.A])), desc(any(pool[op.B])))
 	case opRange:
 		return "Range(all)"
 	}
@@ -129,34 +139,35 @@ func rangeOutcome(pairs []string, stopAfter int, full bool) string {
 }
 
 // applyX applies op to the typed map. visited = pairs seen by a Range.
-func applyX[V any](m *xsync.Map[int, V], op mop, pool []V) (out string, p *vkit.Panic, visited []string) {
+func applyX[K comparable, V any](m *xsync.Map[K, V], op mop, keys []K, pool []V) (out string, p *vkit.Panic, visited []string) {
+	key := keys[op.Key%len(keys)]
 	p = vkit.Try(func() {
 		switch op.Kind {
 		case opLoad:
-			v, ok := m.Load(op.Key)
+			v, ok := m.Load(key)
 			out = fmt.Sprintf("(%s, %v)", desc(any(v)), ok)
 		case opStore:
-			m.Store(op.Key, pool[op.A])
+			m.Store(key, pool[op.A])
 			out = "()"
 		case opLoadOrStore:
-			v, loaded := m.LoadOrStore(op.Key, pool[op.A])
+			v, loaded := m.LoadOrStore(key, pool[op.A])
 			out = fmt.Sprintf("(%s, %v)", desc(any(v)), loaded)
 		case opLoadAndDelete:
-			v, loaded := m.LoadAndDelete(op.Key)
+			v, loaded := m.LoadAndDelete(key)
 			out = fmt.Sprintf("(%s, %v)", desc(any(v)), loaded)
 		case opDelete:
-			m.Delete(op.Key)
+			m.Delete(key)
 			out = "()"
 		case opSwap:
-			v, loaded := m.Swap(op.Key, pool[op.A])
+			v, loaded := m.Swap(key, pool[op.A])
 			out = fmt.Sprintf("(%s, %v)", desc(any(v)), loaded)
 		case opCAS:
-			out = fmt.Sprintf("(%v)", m.CompareAndSwap(op.Key, pool[op.A], pool[op.B]))
+			out = fmt.Sprintf("(%v)", m.CompareAndSwap(key, pool[op.A], pool[op.B]))
 		case opCAD:
-			out = fmt.Sprintf("(%v)", m.CompareAndDelete(op.Key, pool[op.A]))
+			out = fmt.Sprintf("(%v)", m.CompareAndDelete(key, pool[op.A]))
 		case opRange, opRangeStop:
-			m.Range(func(k int, v V) bool {
-				visited = append(visited, fmt.Sprintf("%d=%s", k, desc(any(v))))
+			m.Range(func(k K, v V) bool {
+				visited = append(visited, fmt.Sprintf("%s=%s", desc(any(k)), desc(any(v))))
 				return op.Kind == opRange || len(visited) < op.A
 			})
 			out = rangeOutcome(visited, op.A, op.Kind == opRange)
@@ -166,34 +177,35 @@ func applyX[V any](m *xsync.Map[int, V], op mop, pool []V) (out string, p *vkit.
 }
 
 // applyR applies the same op to a plain sync.Map holding the same values as interface values.
-func applyR[V any](m *sync.Map, op mop, pool []V) (out string, p *vkit.Panic, visited []string) {
+func applyR[K comparable, V any](m *sync.Map, op mop, keys []K, pool []V) (out string, p *vkit.Panic, visited []string) {
+	key := keys[op.Key%len(keys)]
 	p = vkit.Try(func() {
 		switch op.Kind {
 		case opLoad:
-			v, ok := m.Load(op.Key)
+			v, ok := m.Load(key)
 			out = fmt.Sprintf("(%s, %v)", descOrZero[V](v, ok), ok)
 		case opStore:
-			m.Store(op.Key, pool[op.A])
+			m.Store(key, pool[op.A])
 			out = "()"
 		case opLoadOrStore:
-			v, loaded := m.LoadOrStore(op.Key, pool[op.A])
+			v, loaded := m.LoadOrStore(key, pool[op.A])
 			out = fmt.Sprintf("(%s, %v)", desc(v), loaded)
 		case opLoadAndDelete:
-			v, loaded := m.LoadAndDelete(op.Key)
+			v, loaded := m.LoadAndDelete(key)
 			out = fmt.Sprintf("(%s, %v)", descOrZero[V](v, loaded), loaded)
 		case opDelete:
-			m.Delete(op.Key)
+			m.Delete(key)
 			out = "()"
 		case opSwap:
-			v, loaded := m.Swap(op.Key, pool[op.A])
+			v, loaded := m.Swap(key, pool[op.A])
 			out = fmt.Sprintf("(%s, %v)", descOrZero[V](v, loaded), loaded)
 		case opCAS:
-			out = fmt.Sprintf("(%v)", m.CompareAndSwap(op.Key, pool[op.A], pool[op.B]))
+			out = fmt.Sprintf("(%v)", m.CompareAndSwap(key, pool[op.A], pool[op.B]))
 		case opCAD:
-			out = fmt.Sprintf("(%v)", m.CompareAndDelete(op.Key, pool[op.A]))
+			out = fmt.Sprintf("(%v)", m.CompareAndDelete(key, pool[op.A]))
 		case opRange, opRangeStop:
 			m.Range(func(k, v any) bool {
-				visited = append(visited, fmt.Sprintf("%d=%s", k.(int), desc(v)))
+				visited = append(visited, fmt.Sprintf("%s=%s", desc(k), desc(v)))
 				return op.Kind == opRange || len(visited) < op.A
 			})
 			out = rangeOutcome(visited, op.A, op.Kind == opRange)
@@ -209,23 +221,23 @@ func outcome(out string, p *vkit.Panic) string {
 	return out
 }
 
-const mapKeys = 5
-
 // pairMaps is one xsync.Map and its sync.Map twin.
-type pairMaps[V any] struct {
-	name string
+type pairMaps[K comparable, V any] struct {
+	name string // "K,V"
+	keys []K
 	pool []V
-	x    xsync.Map[int, V]
+	x    xsync.Map[K, V]
 	ref  sync.Map
 	log  []string
 }
 
 // step applies op to both, compares the outcomes and then the contents (Load of every key on
 // both). It returns the violation text ("" if none) and the set of present keys.
-func (pm *pairMaps[V]) step(r *vkit.Report, op mop) (sig, what string, present [mapKeys]bool) {
-	ox, px, vx := applyX(&pm.x, op, pm.pool)
-	or, pr, _ := applyR(&pm.ref, op, pm.pool)
-	d := describeOp(op, pm.pool)
+func (pm *pairMaps[K, V]) step(r *vkit.Report, op mop) (sig, what string, present []bool) {
+	present = make([]bool, len(pm.keys))
+	ox, px, vx := applyX(&pm.x, op, pm.keys, pm.pool)
+	or, pr, _ := applyR(&pm.ref, op, pm.keys, pm.pool)
+	d := describeOp(op, pm.keys, pm.pool)
 	pm.log = append(pm.log, fmt.Sprintf("%s -> xsync %s | sync %s", d, outcome(ox, px), outcome(or, pr)))
 	r.Eval(1)
 	if outcome(ox, px) != outcome(or, pr) {
@@ -236,49 +248,47 @@ func (pm *pairMaps[V]) step(r *vkit.Report, op mop) (sig, what string, present [
 		if pr != nil {
 			msg += " (sync.Map panic: " + pr.Msg + ")"
 		}
-		return "map-" + opNames[op.Kind] + "-differs", fmt.Sprintf("xsync.Map[int,%s].%s gave %s%s, sync.Map gives %s", pm.name, d, outcome(ox, px), msg, outcome(or, pr)), present
+		return "map-" + opNames[op.Kind] + "-differs", fmt.Sprintf("xsync.Map[%s].%s gave %s%s, sync.Map gives %s", pm.name, d, outcome(ox, px), msg, outcome(or, pr)), present
 	}
 	if px != nil {
-		r.Count("map", "ops on which both sync.Map and xsync.Map panic (non-comparable old value)", 1)
+		r.Count("map", "ops on which both sync.Map and xsync.Map panic (non-comparable old value or key)", 1)
 	}
 	// contents
-	var contents []string
-	for k := 0; k < mapKeys; k++ {
+	for k := range pm.keys {
 		lop := mop{Kind: opLoad, Key: k}
-		lx, lpx, _ := applyX(&pm.x, lop, pm.pool)
-		lr, lpr, _ := applyR(&pm.ref, lop, pm.pool)
+		lx, lpx, _ := applyX(&pm.x, lop, pm.keys, pm.pool)
+		lr, lpr, _ := applyR(&pm.ref, lop, pm.keys, pm.pool)
 		r.Eval(1)
 		if outcome(lx, lpx) != outcome(lr, lpr) {
 			msg := ""
 			if lpx != nil {
 				msg = " (panic: " + lpx.Msg + ")"
 			}
-			return "map-state-differs", fmt.Sprintf("after %s on xsync.Map[int,%s]: Load(%d) gives %s%s, sync.Map gives %s", d, pm.name, k, outcome(lx, lpx), msg, outcome(lr, lpr)), present
+			return "map-state-differs", fmt.Sprintf("after %s on xsync.Map[%s]: Load(%s) gives %s%s, sync.Map gives %s", d, pm.name, desc(any(pm.keys[k])), outcome(lx, lpx), msg, outcome(lr, lpr)), present
 		}
 		if strings.HasSuffix(lr, ", true)") {
 			present[k] = true
-			contents = append(contents, fmt.Sprintf("%d=%s", k, strings.TrimSuffix(strings.TrimPrefix(lr, "("), ", true)")))
 		}
 	}
 	// the same contents through Range on both (bit-exact rendering of the values)
-	rx, rpx, _ := applyX(&pm.x, mop{Kind: opRange}, pm.pool)
-	rr, rpr, _ := applyR(&pm.ref, mop{Kind: opRange}, pm.pool)
+	rx, rpx, _ := applyX(&pm.x, mop{Kind: opRange}, pm.keys, pm.pool)
+	rr, rpr, all := applyR(&pm.ref, mop{Kind: opRange}, pm.keys, pm.pool)
 	r.Eval(1)
 	if outcome(rx, rpx) != outcome(rr, rpr) {
-		return "map-state-differs", fmt.Sprintf("after %s on xsync.Map[int,%s]: Range gives %s, sync.Map's Range gives %s", d, pm.name, outcome(rx, rpx), outcome(rr, rpr)), present
+		return "map-state-differs", fmt.Sprintf("after %s on xsync.Map[%s]: Range gives %s, sync.Map's Range gives %s", d, pm.name, outcome(rx, rpx), outcome(rr, rpr)), present
 	}
 	// a Range that stopped early: every pair it visited is in the map (as it was before the op,
 	// which a Range does not change)
 	if op.Kind == opRangeStop && px == nil {
 		for _, pair := range vx {
 			found := false
-			for _, cpair := range contents {
+			for _, cpair := range all {
 				if pair == cpair {
 					found = true
 				}
 			}
 			if !found {
-				return "map-Range-phantom", fmt.Sprintf("xsync.Map[int,%s].Range visited %s which is not in the map %v", pm.name, pair, contents), present
+				return "map-Range-phantom", fmt.Sprintf("xsync.Map[%s].Range visited %s which is not in the map %v", pm.name, pair, all), present
 			}
 		}
 	}
@@ -291,24 +301,56 @@ type vrunner interface {
 	random(c *vkit.Case)
 }
 
-type vrun[V any] struct {
-	name string
+type vrun[K comparable, V any] struct {
+	name string // cell name: the value type, or "K=<key type>" for the interface-key instantiations
+	kv   string // "K,V" for messages
+	keys []K
 	pool []V // pool[0] is the zero value
+	// script: indices of the keys that take the role of the key under test, and of findable
+	// bystander keys; unfindable: indices of keys no Load can ever find (NaN) or that cannot be
+	// hashed at all (a slice inside an interface: every keyed method panics, in both maps)
+	mainKeys   []int
+	auxKeys    []int
+	unfindable map[int]bool
 }
 
-func (v vrun[V]) vname() string { return v.name }
+func (v vrun[K, V]) vname() string { return v.name }
+
+func intKeys[V any](name string, pool []V) vrun[int, V] {
+	return vrun[int, V]{name: name, kv: "int," + name, keys: []int{0, 1, 2, 3, 4}, pool: pool, mainKeys: []int{1}, auxKeys: []int{3, 2}}
+}
+
+// stringer keys
+type sk struct{ id int }
+
+func (s *sk) String() string { return fmt.Sprintf("sk%d", s.id) }
+
+type sv struct{ id int }
+
+func (s sv) String() string { return fmt.Sprintf("sv%d", s.id) }
+
+type snc struct{ ids []int } // not comparable
+
+func (s snc) String() string { return "snc" }
 
 var (
 	cellA, cellB = &cell{ID: 1}, &cell{ID: 2}
 	perrA, perrB = &perr{0, 1}, &perr{0, 2}
+	skA          = &sk{1}
 	vrunners     = []vrunner{
-		vrun[int]{"int", []int{0, 1, 2, 7}},
-		vrun[string]{"string", []string{"", "a", "b"}},
-		vrun[*cell]{"*cell", []*cell{nil, cellA, cellB}},
-		vrun[error]{"error", []error{nil, perrA, perrB, verr{1}, verr{2}, serr{[]string{"x"}}, serr{[]string{"y"}}}},
-		vrun[any]{"any", []any{nil, 0, 7, "", "s", cellA, (*cell)(nil), []int{1}, []int{2}, verr{1}, 0.0, negZero, math.NaN(), fs{negZero, 0}, fs{0, 0}}},
-		vrun[float64]{"float64", []float64{0, negZero, 1.5, math.NaN()}},
-		vrun[fs]{"struct{float64;int}", []fs{{0, 0}, {negZero, 0}, {1.5, 1}, {math.NaN(), 2}, {0, 1}}},
+		intKeys[int]("int", []int{0, 1, 2, 7}),
+		intKeys[string]("string", []string{"", "a", "b"}),
+		intKeys[*cell]("*cell", []*cell{nil, cellA, cellB}),
+		intKeys[error]("error", []error{nil, perrA, perrB, verr{1}, verr{2}, serr{[]string{"x"}}, serr{[]string{"y"}}}),
+		intKeys[any]("any", []any{nil, 0, 7, "", "s", cellA, (*cell)(nil), []int{1}, []int{2}, verr{1}, 0.0, negZero, math.NaN(), fs{negZero, 0}, fs{0, 0}}),
+		intKeys[float64]("float64", []float64{0, negZero, 1.5, math.NaN()}),
+		intKeys[fs]("struct{float64;int}", []fs{{0, 0}, {negZero, 0}, {1.5, 1}, {math.NaN(), 2}, {0, 1}}),
+		vrun[any, int]{name: "K=any", kv: "any,int", pool: []int{0, 1, 2},
+			keys:     []any{7, nil, "a", 1.5, cellA, (*cell)(nil), verr{1}, fs{0, 1}, "", 0.0, negZero, math.NaN(), []int{1}},
+			mainKeys: []int{0, 1, 2, 3, 4, 5, 6, 7, 8, 9, 10, 11, 12}, auxKeys: []int{0, 1, 2}, unfindable: map[int]bool{11: true, 12: true}},
+		vrun[fmt.Stringer, string]{name: "K=fmt.Stringer", kv: "fmt.Stringer,string", pool: []string{"", "a", "b"},
+			keys:     []fmt.Stringer{skA, nil, sv{1}, (*sk)(nil), sv{2}, snc{[]int{1}}},
+			mainKeys: []int{0, 1, 2, 3, 4, 5}, auxKeys: []int{0, 1, 2}, unfindable: map[int]bool{5: true}},
 	}
 )
 
@@ -322,7 +364,16 @@ func stateName(present bool) string {
 // script: complete single-operation scope for one (V, method): every key state (absent in an
 // empty map, absent in a non-empty map, present with each pool value incl. the zero value / a
 // stored nil) x every argument tuple from the pool.
-func (v vrun[V]) script(c *vkit.Case, method int) {
+func (v vrun[K, V]) script(c *vkit.Case, method int) {
+	for _, mainKey := range v.mainKeys {
+		if !v.scriptKey(c, method, mainKey) {
+			return
+		}
+	}
+}
+
+// scriptKey runs the single-operation scope with key index mainKey as the key under test.
+func (v vrun[K, V]) scriptKey(c *vkit.Case, method int, mainKey int) bool {
 	r := c.R
 	P := len(v.pool)
 	argsA, argsB := 1, 1
@@ -337,27 +388,37 @@ func (v vrun[V]) script(c *vkit.Case, method int) {
 	for state := -2; state < P; state++ {
 		for a := 0; a < argsA; a++ {
 			for b := 0; b < argsB; b++ {
-				pm := &pairMaps[V]{name: v.name, pool: v.pool}
+				pm := &pairMaps[K, V]{name: v.kv, keys: v.keys, pool: v.pool}
+				var aux []int
+				for _, k := range v.auxKeys {
+					if k != mainKey {
+						aux = append(aux, k)
+					}
+				}
 				// set-up goes through the same differential step (Store is itself under test)
 				var setup []mop
 				if state >= -1 {
-					setup = append(setup, mop{Kind: opStore, Key: 3, A: 1})
+					setup = append(setup, mop{Kind: opStore, Key: aux[0], A: 1})
 				}
 				if state >= 0 {
-					setup = append(setup, mop{Kind: opStore, Key: 1, A: state})
+					setup = append(setup, mop{Kind: opStore, Key: mainKey, A: state})
 					if method == opRange || method == opRangeStop {
-						setup = append(setup, mop{Kind: opStore, Key: 2, A: (state + 1) % P})
+						setup = append(setup, mop{Kind: opStore, Key: aux[1], A: (state + 1) % P})
 					}
 				}
-				op := mop{Kind: method, Key: 1, A: a, B: b}
+				op := mop{Kind: method, Key: mainKey, A: a, B: b}
 				if method == opRangeStop {
 					op.A = a + 1
 				}
 				for _, o := range append(setup, op) {
 					if sig, what, _ := pm.step(r, o); sig != "" {
-						c.Violation(sig, what, map[string]any{"V": v.name, "ops": pm.log})
-						return
+						c.Violation(sig, what, map[string]any{"K,V": v.kv, "ops": pm.log})
+						return false
 					}
+				}
+				if v.unfindable[mainKey] {
+					r.Count("map", "single-op cases on a key that cannot be found (NaN) or hashed (slice in an interface): both maps agree", 1)
+					continue
 				}
 				cellState := stateName(state >= 0)
 				if method == opRange || method == opRangeStop {
@@ -371,18 +432,23 @@ func (v vrun[V]) script(c *vkit.Case, method int) {
 				if state == 0 && any(zero) == nil && method != opStore && method != opDelete && method != opCAS && method != opCAD {
 					r.Count("regression", "D13: stored nil interface value read back by "+opNames[method], 1)
 				}
-				r.Distinct(fmt.Sprintf("ms:%s:%d:%d:%d:%d", v.name, method, state, a, b))
+				r.Distinct(fmt.Sprintf("ms:%s:%d:%d:%d:%d:%d", v.name, method, mainKey, state, a, b))
+				var zk K
+				if any(zk) == nil && any(v.keys[mainKey]) == nil && state >= 0 && (method == opRange || method == opRangeStop) {
+					r.Count("regression", "nil key of an interface key type visited by Range", 1)
+				}
 			}
 		}
 	}
+	return true
 }
 
-func (v vrun[V]) random(c *vkit.Case) {
+func (v vrun[K, V]) random(c *vkit.Case) {
 	r := c.R
 	rnd := c.Rand
-	pm := &pairMaps[V]{name: v.name, pool: v.pool}
+	pm := &pairMaps[K, V]{name: v.kv, keys: v.keys, pool: v.pool}
 	n := rnd.Range(10, 60)
-	var present [mapKeys]bool
+	present := make([]bool, len(v.keys))
 	sawAbsent, sawPresent := false, false
 	var seq strings.Builder
 	for i := 0; i < n; i++ {
@@ -403,7 +469,7 @@ func (v vrun[V]) random(c *vkit.Case) {
 		case !wantPresent && len(out) > 0:
 			op.Key = vkit.Pick(rnd, out)
 		default:
-			op.Key = rnd.Intn(mapKeys)
+			op.Key = rnd.Intn(len(v.keys))
 		}
 		if op.Kind == opCAS || op.Kind == opCAD {
 			// half of the time compare with what is really stored... by pool index we cannot know
@@ -426,7 +492,7 @@ func (v vrun[V]) random(c *vkit.Case) {
 		fmt.Fprintf(&seq, "%d.%d.%d.%d;", op.Kind, op.Key, op.A, op.B)
 		sig, what, now := pm.step(r, op)
 		if sig != "" {
-			c.Violation(sig, what, map[string]any{"V": v.name, "ops": pm.log})
+			c.Violation(sig, what, map[string]any{"K,V": v.kv, "ops": pm.log})
 			return
 		}
 		present = now
@@ -435,14 +501,14 @@ func (v vrun[V]) random(c *vkit.Case) {
 	}
 	// final contents through Range on both
 	if sig, what, _ := pm.step(r, mop{Kind: opRange}); sig != "" {
-		c.Violation(sig, what, map[string]any{"V": v.name, "ops": pm.log})
+		c.Violation(sig, what, map[string]any{"K,V": v.kv, "ops": pm.log})
 		return
 	}
 	if sawAbsent && sawPresent {
 		r.Distinct("mr:" + v.name + ":" + seq.String())
 	}
 	if r.WantSample() && c.Index == 3 {
-		r.Sample(map[string]any{"kind": "map op list", "V": v.name, "ops (op -> xsync outcome | sync.Map outcome)": pm.log})
+		r.Sample(map[string]any{"kind": "map op list", "K,V": v.kv, "ops (op -> xsync outcome | sync.Map outcome)": pm.log})
 	}
 }
 
@@ -465,22 +531,15 @@ func mapScript(r *vkit.Report) {
 		}
 	}
 	r.Floor("(V, method, key state) cells exercised", int64(cells), int64(len(vrunners)*nMapOps*2))
+	r.Floor("regression: nil key of an interface key type visited by Range", r.Table("regression", "nil key of an interface key type visited by Range"), 4)
 	r.Floor("D12 regression: Swap on an absent key", r.Table("regression", "D12: Swap on an absent key"), 5)
 	for _, m := range []int{opLoad, opLoadAndDelete, opLoadOrStore, opRange, opSwap} {
 		r.Floor("D13 regression: stored nil read back by "+opNames[m], r.Table("regression", "D13: stored nil interface value read back by "+opNames[m]), 2)
 	}
-	// Outside the statement (it speaks of value types): an interface KEY type with a nil key.
-	// Recorded, never judged.
-	{
-		var m xsync.Map[any, int]
-		m.Store(nil, 1)
-		p := vkit.Try(func() { m.Range(func(k any, v int) bool { return true }) })
-		r.Count("map-outside-statement", map[bool]string{true: "Map[any,int] with a stored nil key: Range panics (recorded, not judged)", false: "Map[any,int] with a stored nil key: Range works"}[p != nil], 1)
-	}
 }
 
 func mapRandom(r *vkit.Report) {
-	n := r.Scale(1500, 15000)
+	n := r.Scale(1500, 10000)
 	r.Cases("map-random", n, 4, func(c *vkit.Case) {
 		vrunners[c.Index%len(vrunners)].random(c)
 	})
